@@ -199,14 +199,25 @@ fn space_case<T: Idx>(rep: &mut Report, orc: &mut Oracle, rng: &mut Rng, m: &Moc
     // ---- hole filling: superset that only adds whole components of the complement
     let k = rng.below(3) as usize;
     let frac = *rng.pick(&[0.0, 0.001, 0.01, 0.1, 0.5, 1.0]);
-    let fills: Vec<(String, Result<Vec<(u64, u64)>, String>)> = vec![
-      ("fill_holes(None)".to_string(), catch(|| from_range_moc(Q::S, &mm.fill_holes(None)).r)),
-      (format!("fill_holes(Some({}))", k), catch(|| from_range_moc(Q::S, &mm.fill_holes(Some(k))).r)),
-      (format!("fill_holes_smaller_than({})", frac), catch(|| from_range_moc(Q::S, &mm.fill_holes_smaller_than(frac)).r)),
+    let (fnum, fden) = match frac { x if x == 0.0 => (0, 1), x if x == 0.001 => (1, 1000), x if x == 0.01 => (1, 100), x if x == 0.1 => (1, 10), x if x == 0.5 => (1, 2), _ => (1, 1) };
+    let fills: Vec<(String, String, Result<Vec<(u64, u64)>, String>)> = vec![
+      ("fill_holes(None)".to_string(), "0".to_string(), catch(|| from_range_moc(Q::S, &mm.fill_holes(None)).r)),
+      (format!("fill_holes(Some({}))", k), format!("{}", k), catch(|| from_range_moc(Q::S, &mm.fill_holes(Some(k))).r)),
+      (format!("fill_holes_smaller_than({})", frac), format!("S {} {}", fnum, fden), catch(|| from_range_moc(Q::S, &mm.fill_holes_smaller_than(frac)).r)),
     ];
-    for (name, got) in fills {
+    for (name, mode, got) in fills {
       rep.evaluations += 1;
       rep.count("space:fill_holes");
+      // the hole filling as written (Model/FloodFill.v ff_fill / ff_fill_smaller): the same MOC
+      if let Ok(out) = &got {
+        let line = format!("FILLF {} {}", base, mode);
+        let model = orc.ask(&line);
+        rep.evaluations += 1;
+        rep.count("space:fill-floodfill-model");
+        if model != format!("OK {}", ranges_str(out)) {
+          rep.corr_break(&format!("{} differs from the model of the hole filling (complement, flood fill, sort by coverage, selection, union)", name), &line, &ranges_str(out), &model.chars().take(400).collect::<String>(), "src/moc/range/mod.rs fill_holes / fill_holes_smaller_than == Model/FloodFill.v ff_fill / ff_fill_smaller");
+        }
+      }
       match got {
         Ok(out) => {
           let line = format!("FILL {} {}", base, ranges_str(&out));
